@@ -21,6 +21,8 @@ enum Case {
     /// E with one optional child
     ValidWithOpt(String, usize),
     DropParam(String, usize),
+    /// a string parameter written as a bare word (accepted with a warning in non-strict mode only)
+    BareWordForString(String, usize),
     DuplicateOpt(String, usize),
     MissingRequired(String, usize),
     WrapKeyword(String),
@@ -39,6 +41,7 @@ fn case_label(c: &Case) -> &'static str {
         Case::Valid(_) => "valid",
         Case::ValidWithOpt(..) => "valid_with_opt",
         Case::DropParam(..) => "drop_param",
+        Case::BareWordForString(..) => "bare_word_for_string",
         Case::DuplicateOpt(..) => "duplicate_opt",
         Case::MissingRequired(..) => "missing_required",
         Case::WrapKeyword(_) => "wrap_keyword",
@@ -471,6 +474,9 @@ fn enumerate_cases(g: &Grammar) -> Vec<Case> {
                 cases.push(Case::DropParam(t.clone(), i));
             }
             for (i, s) in param_slots(g, t, 0).iter().enumerate() {
+                if s.field.ty == PType::Str {
+                    cases.push(Case::BareWordForString(t.clone(), i));
+                }
                 if matches!(s.field.ty, PType::Enum(_)) {
                     cases.push(Case::BadEnum(t.clone(), i));
                     if let PType::Enum(name) = &s.field.ty {
@@ -592,6 +598,7 @@ fn run_systematic(g: &Grammar, rng: &mut Rng, rec: &mut Recorder, case: &Case) {
         Case::Valid(t)
         | Case::ValidWithOpt(t, _)
         | Case::DropParam(t, _)
+        | Case::BareWordForString(t, _)
         | Case::DuplicateOpt(t, _)
         | Case::MissingRequired(t, _)
         | Case::WrapKeyword(t)
@@ -666,6 +673,9 @@ fn run_systematic(g: &Grammar, rng: &mut Rng, rec: &mut Recorder, case: &Case) {
                 }
                 Case::DropParam(_, i) => {
                     built.elem.params.remove(*i);
+                }
+                Case::BareWordForString(_, i) => {
+                    built.elem.params[*i] = Tok::word(TK::Ident, "zz_bare_word");
                 }
                 Case::BadEnum(_, i) => {
                     built.elem.params[*i] = Tok::word(TK::Enum, "ZZ_NOT_AN_ENUM_ITEM");
@@ -747,6 +757,7 @@ fn run_systematic(g: &Grammar, rng: &mut Rng, rec: &mut Recorder, case: &Case) {
                     &lbl,
                     &sigctx,
                 ),
+                Case::BareWordForString(..) => expect_recoverable(rec, &out, "UnexpectedTokenType", "", &text, &lbl, &sigctx, false),
                 Case::BadEnum(..) => expect_hard_error(rec, &out, &["InvalidEnumValue"], &text, &lbl, &sigctx),
                 Case::WrapKeyword(_) => expect_hard_error(rec, &out, &["IncorrectKeywordError"], &text, &lbl, &sigctx),
                 Case::StripBlock(_) => expect_hard_error(rec, &out, &["IncorrectBlockError"], &text, &lbl, &sigctx),
@@ -837,7 +848,7 @@ pub fn run(args: &Args, rec: &mut Recorder) {
         None
     });
     for l in [
-        "valid", "valid_with_opt", "drop_param", "duplicate_opt", "missing_required", "wrap_keyword",
+        "valid", "valid_with_opt", "drop_param", "bare_word_for_string", "duplicate_opt", "missing_required", "wrap_keyword",
         "strip_block", "bad_enum", "opt_at_version", "enum_at_version",
     ] {
         rec.floor(&format!("case.{l}"), 1);
